@@ -328,16 +328,20 @@ class Mailbox:
         new_folder = await mbox._restore_from_db()
 
         # If this new mbox has `\Noselect` then it is essentially a deleted
-        # mailbox. We will return it but we will not check for new messages and
-        # we will not create a management task.
+        # mailbox. We will return it but we will not check for new messages.
         #
         if r"\Noselect" not in mbox.attributes:
             optional = not (new_folder or r"\Marked" in mbox.attributes)
             async with mbox.mailbox.lock_folder():
                 await mbox.check_new_msgs_and_flags(optional=optional)
-            mbox.mgmt_task = asyncio.create_task(
-                mbox.management_task(), name=f"mbox '{mbox.name}' mgmt task"
-            )
+
+        # NOTE: A `\Noselect` mailbox needs its management task as well:
+        #       commands like DELETE, STATUS, RENAME or SELECT are still
+        #       queued on it and would otherwise never be told to proceed.
+        #
+        mbox.mgmt_task = asyncio.create_task(
+            mbox.management_task(), name=f"mbox '{mbox.name}' mgmt task"
+        )
         return mbox
 
     ####################################################################
@@ -2945,10 +2949,11 @@ class Mailbox:
                 await mbox.commit_to_db()
                 async with mbox.mailbox.lock_folder():
                     await mbox.check_new_msgs_and_flags(optional=False)
-                mbox.mgmt_task = asyncio.create_task(
-                    mbox.management_task(),
-                    name=f"mbox '{mbox.name}' mgmt task",
-                )
+                if not hasattr(mbox, "mgmt_task") or mbox.mgmt_task.done():
+                    mbox.mgmt_task = asyncio.create_task(
+                        mbox.management_task(),
+                        name=f"mbox '{mbox.name}' mgmt task",
+                    )
             else:
                 raise MailboxExists(f"Mailbox '{name}' already exists")
 
